@@ -142,6 +142,31 @@ package interceptor
 //@   requires info != nil
 //@   callpre TranslateRequest: @filtered: $recv.MatchMethod(info.FullMethod) && !common.IsRequestTranslationDisabled(ctx)
 //@   callpre TranslateResponse: @filtered: $recv.MatchMethod(info.FullMethod) && !common.IsRequestTranslationDisabled(ctx)
+// ... and EVERY translator whose filter accepts the call has been applied to the request when the handler is called
+// (seed C14-11; the same statement for the response is not proved: the handler call havocs the translator list)
+//@   counts TranslateRequest, TranslateResponse
+//@   callpre handler: @every_matching_translator_applied_to_request: calls(TranslateRequest) == nMatch(i.translators, len(i.translators), info.FullMethod) || calls(TranslateRequest) == 0 && (common.IsRequestTranslationDisabled(ctx) || len(i.translators) == 0 || (!hasPrefix(info.FullMethod, api.WorkflowServicePrefix) && !hasPrefix(info.FullMethod, api.AdminServicePrefix)))
+//@   loop 1 invariant calls(TranslateRequest) == nMatch(i.translators, $i, info.FullMethod) && calls(TranslateResponse) == 0
+//@ func rec nMatch(ts []Translator, n int, m string) int = ite(n <= 0, 0, nMatch(ts, n - 1, m) + ite(ts[n - 1].MatchMethod(m), 1, 0))
+
+// Seed C14-11 (a translator is skipped for a message type after one data-dependent failure): on a stream EVERY
+// translator the stream was built with is applied to EVERY message, in both directions - whatever earlier messages did.
+//@ extern quiet (grpc.ServerStream).RecvMsg
+//@ extern quiet (grpc.ServerStream).SendMsg
+//@ contract (*streamTranslator).RecvMsg
+//@   shape sig=(w *streamTranslator)(m any)( error);loops=range;lits=0;fv=
+//@   props C14 C13
+//@   counts TranslateRequest
+//@   ensures @every_translator_applied: calls(TranslateRequest) == len(w.translators)
+//@   callpre TranslateRequest: @this_message: $0 == m
+//@   loop 1 invariant calls(TranslateRequest) == $i
+//@ contract (*streamTranslator).SendMsg
+//@   shape sig=(w *streamTranslator)(m any)( error);loops=range;lits=0;fv=
+//@   props C14 C13
+//@   counts TranslateResponse
+//@   ensures @every_translator_applied: calls(TranslateResponse) == len(w.translators)
+//@   callpre TranslateResponse: @this_message: $0 == m
+//@   loop 1 invariant calls(TranslateResponse) == $i
 
 // ---------------------------------------------------------------------------------------------
 // C17: history-blob repair path. A batch counts as repaired as soon as ANY of its events was repaired, and the
